@@ -20,6 +20,7 @@ import (
 	"sync"
 	"sync/atomic"
 	"testing"
+	"unsafe"
 
 	"verifharness/core"
 
@@ -49,6 +50,10 @@ type (
 	}
 	PPlain struct{ V uint64 }
 	PTag   struct{}
+	// components whose ONLY traced field is of one kind
+	POnlyStr   struct{ S string }
+	POnlyIface struct{ I any }
+	POnlyFunc  struct{ F func() uint64 }
 )
 
 // ---- bookkeeping of referents ----------------------------------------------------------------
@@ -102,6 +107,18 @@ func (b *refBook) newPayload() (*payload, uint64) {
 	p := &payload{}
 	b.fill(p, tok, true)
 	return p, tok
+}
+
+// finalizeBlock attaches the bookkeeping finalizer to a raw memory block.
+func (b *refBook) finalizeBlock(first *byte, tok uint64) {
+	runtime.SetFinalizer(first, func(*byte) {
+		b.mu.Lock()
+		b.finalized[tok] = true
+		if b.live[tok] {
+			b.early = append(b.early, tok)
+		}
+		b.mu.Unlock()
+	})
 }
 
 func (b *refBook) release(tok uint64) {
@@ -360,19 +377,20 @@ type gcEnt struct {
 	h     ecs.Entity
 	alive bool
 	// tokens of the referents reachable only through this entity's components
-	ptr, rel, str uint64
-	sli           []uint64
-	mp            []uint64
-	plain, tag    bool
-	hasRel        bool
-	target        int
+	ptr, rel, str  uint64
+	ostr, oif, ofn uint64
+	sli            []uint64
+	mp             []uint64
+	plain, tag     bool
+	hasRel         bool
+	target         int
 }
 
 type gcWorld struct {
 	w    *ecs.World
 	book *refBook
 	ents []*gcEnt
-	ids  struct{ ptr, sli, mp, str, rel, plain, tag ecs.ID }
+	ids  struct{ ptr, sli, mp, str, rel, plain, tag, ostr, oif, ofn ecs.ID }
 	// pending: tokens released by the model; their finalizers must have run after a flush
 	pending []uint64
 	labels  map[string]bool
@@ -385,17 +403,19 @@ func newGCWorld(cap int) *gcWorld {
 	g.ids.ptr, g.ids.sli, g.ids.mp = ecs.ComponentID[PPtr](&w), ecs.ComponentID[PSli](&w), ecs.ComponentID[PMap](&w)
 	g.ids.str, g.ids.rel = ecs.ComponentID[PStr](&w), ecs.ComponentID[PRel](&w)
 	g.ids.plain, g.ids.tag = ecs.ComponentID[PPlain](&w), ecs.ComponentID[PTag](&w)
+	g.ids.ostr, g.ids.oif, g.ids.ofn = ecs.ComponentID[POnlyStr](&w), ecs.ComponentID[POnlyIface](&w), ecs.ComponentID[POnlyFunc](&w)
 	return g
 }
 
 func (g *gcWorld) releaseAll(e *gcEnt) {
-	for _, tok := range append(append([]uint64{e.ptr, e.rel, e.str}, e.sli...), e.mp...) {
+	for _, tok := range append(append([]uint64{e.ptr, e.rel, e.str, e.ostr, e.oif, e.ofn}, e.sli...), e.mp...) {
 		if tok != 0 {
 			g.book.release(tok)
 			g.pending = append(g.pending, tok)
 		}
 	}
 	e.ptr, e.rel, e.str, e.sli, e.mp = 0, 0, 0, nil, nil
+	e.ostr, e.oif, e.ofn = 0, 0, 0
 }
 
 // newValues builds the pointer components of a new entity; the referents are allocated first
@@ -435,6 +455,26 @@ func (g *gcWorld) makeComps(e *gcEnt, which int) []ecs.Component {
 		e.hasRel = true
 		e.target = -1
 		comps = append(comps, ecs.Component{ID: g.ids.rel, Comp: &PRel{P: p}})
+	}
+	if which&64 != 0 {
+		// a string whose bytes live in a block that is reachable only through the component; the
+		// finalizer sits on the block
+		tok := g.book.newToken()
+		blk := make([]byte, 48)
+		copy(blk, fmt.Sprintf("only-string-%020d-padpadpad", tok))
+		g.book.finalizeBlock(&blk[0], tok)
+		e.ostr = tok
+		comps = append(comps, ecs.Component{ID: g.ids.ostr, Comp: &POnlyStr{S: unsafe.String(&blk[0], len(blk))}})
+	}
+	if which&128 != 0 {
+		p, tok := g.book.newPayload()
+		e.oif = tok
+		comps = append(comps, ecs.Component{ID: g.ids.oif, Comp: &POnlyIface{I: p}})
+	}
+	if which&256 != 0 {
+		p, tok := g.book.newPayload()
+		e.ofn = tok
+		comps = append(comps, ecs.Component{ID: g.ids.ofn, Comp: &POnlyFunc{F: func() uint64 { return p.Tok }}})
 	}
 	if which&32 != 0 {
 		e.plain = true
@@ -497,6 +537,25 @@ func (g *gcWorld) verify() string {
 				return fmt.Sprintf("entity %d, string+pointer component: %s", i, msg)
 			}
 		}
+		if e.ostr != 0 {
+			c := (*POnlyStr)(w.Get(e.h, g.ids.ostr))
+			if want := fmt.Sprintf("only-string-%020d-padpadpad", e.ostr); c == nil || len(c.S) != 48 || c.S[:len(want)] != want {
+				return fmt.Sprintf("entity %d, string-only component reads %q, want %q", i, c.S, want)
+			}
+		}
+		if e.oif != 0 {
+			c := (*POnlyIface)(w.Get(e.h, g.ids.oif))
+			p, _ := c.I.(*payload)
+			if msg := checkPayload(p, e.oif); msg != "" {
+				return fmt.Sprintf("entity %d, interface-only component: %s", i, msg)
+			}
+		}
+		if e.ofn != 0 {
+			c := (*POnlyFunc)(w.Get(e.h, g.ids.ofn))
+			if c == nil || c.F == nil || c.F() != e.ofn {
+				return fmt.Sprintf("entity %d, func-only component: the closure no longer yields token %d", i, e.ofn)
+			}
+		}
 		if e.rel != 0 {
 			c := (*PRel)(w.Get(e.h, g.ids.rel))
 			if c == nil {
@@ -541,7 +600,7 @@ func (g *gcWorld) apply(op gcOp) string {
 	switch op.K {
 	case "new":
 		e := &gcEnt{alive: true, target: -1}
-		which := op.V&63 | 1
+		which := op.V&511 | 1
 		comps := g.makeComps(e, which)
 		switch op.N % 3 {
 		case 0:
@@ -688,7 +747,10 @@ func runGCCase(c *gcCase) (msg string, labels map[string]bool, moves int) {
 		if m != "" {
 			return fmt.Sprintf("op %d %+v: %s", k, op, m), g.labels, g.moves
 		}
-		if m := g.verify(); m != "" {
+		if p := core.Call(func() { m = g.verify() }); p != nil {
+			return fmt.Sprintf("after op %d %+v: reading a component's referent panicked: %v", k, op, p), g.labels, g.moves
+		}
+		if m != "" {
 			return fmt.Sprintf("after op %d %+v: %s", k, op, m), g.labels, g.moves
 		}
 	}
@@ -706,7 +768,7 @@ func runGCCase(c *gcCase) (msg string, labels map[string]bool, moves int) {
 
 func TestC14(t *testing.T) {
 	withStats(t, "C14", func(st *core.Stats) {
-		st.Rule = "(t) 13 call-site templates (World.Set/Assign/NewEntityWith, Builder.New/NewBatchQ/Add, generic Map.Set/Map1.NewWith/Assign, slice, string, write through the Get pointer) whose component literal and referent are locals of a non-inlined function: after it returns the stack is overwritten (generated depth), a GC forced, the entity moved to another table and the referent read back - all templates are walked in every run; (a) generated histories of creations (three supply paths), removals, RemoveEntities, Add/Remove of other components (moves between tables), batch moves, relation retargeting, overwriting and Reset on entities whose components hold *T, []T, map, string and a relation component with a pointer, referents allocated before and reachable only through the component, with capacity increment 1-2 (growth every few entities) while 0-4 goroutines force collections continuously; after every op every referent is read through its component (token and padding intact) and no referent may have been finalized while its component exists; (b) after removal of the component/entity, overwriting or Reset, a deterministic flush (GC, sentinel finalizer, GC, three rounds) must have run the finalizer of every released referent; non-trivial = a history with >= 3 moves of pointer-holding entities between tables and concurrent collections; the GC schedule is not controlled (stress exploration)"
+		st.Rule = "(t) 13 call-site templates (World.Set/Assign/NewEntityWith, Builder.New/NewBatchQ/Add, generic Map.Set/Map1.NewWith/Assign, slice, string, write through the Get pointer) whose component literal and referent are locals of a non-inlined function: after it returns the stack is overwritten (generated depth), a GC forced, the entity moved to another table and the referent read back - all templates are walked in every run; (a) generated histories of creations (three supply paths), removals, RemoveEntities, Add/Remove of other components (moves between tables), batch moves, relation retargeting, overwriting and Reset on entities whose components hold *T, []T, map, string(+pointer), string only, interface only, func (closure) only, and a relation component with a pointer, referents allocated before and reachable only through the component, with capacity increment 1-2 (growth every few entities) while 0-4 goroutines force collections continuously; after every op every referent is read through its component (token and padding intact) and no referent may have been finalized while its component exists; (b) after removal of the component/entity, overwriting or Reset, a deterministic flush (GC, sentinel finalizer, GC, three rounds) must have run the finalizer of every released referent; non-trivial = a history with >= 3 moves of pointer-holding entities between tables and concurrent collections; the GC schedule is not controlled (stress exploration)"
 		if path, ok := replaying(); ok {
 			var c gcCase
 			if err := core.ReadReplay(path, &c); err != nil {
@@ -757,7 +819,7 @@ func TestC14(t *testing.T) {
 						k = "new"
 					}
 					c.Ops = append(c.Ops, gcOp{K: k, E: rapid.IntRange(0, 40).Draw(rt, "e"), T: rapid.IntRange(0, 40).Draw(rt, "t"),
-						V: rapid.IntRange(0, 63).Draw(rt, "v"), N: rapid.IntRange(0, 2).Draw(rt, "n")})
+						V: rapid.IntRange(0, 511).Draw(rt, "v"), N: rapid.IntRange(0, 2).Draw(rt, "n")})
 				}
 				cs := st.Begin()
 				defer cs.End()
